@@ -23,7 +23,8 @@ Tolerated(h, N, T) == N = 0 \/ CountNack(LastN(Append(h, TRUE), N)) <= T
 
 Empty == [scen |-> "", n |-> 0, t |-> 0, code |-> 0, hist |-> <<>>, frozen |-> FALSE, acc |-> <<>>, bad |-> FALSE]
 Init == l = 1 /\ st = Empty /\ viol = {}
-V(inv, what) == [inv |-> inv, at |-> Ev.n, scen |-> st.scen, what |-> what]
+\* what is rendered as a string: the records of one scenario form a set, and TLC cannot compare values of different types
+V(inv, what) == [inv |-> inv, at |-> Ev.n, scen |-> st.scen, what |-> ToString(what)]
 Add(cond, inv, what) == IF cond THEN {} ELSE {V(inv, what)}
 
 Reset ==
